@@ -26,6 +26,19 @@ def run(chk):
     core.binding_demo(chk, 'bind-name', 'Trace_Beam', 'Trace_Beam.cfg', good, corrupt, 'identical', candidates=goods[1:])
     recs = core.run_driver('beam', tier=chk.tier, seed=chk.seed, args=dict(prop='C13'))
     chk.validate('helpers', 'Trace_Beam', 'Trace_Beam.cfg', recs, driver='beam', jobs=14)
+    # growth beyond the listed property: stable_solve (minimum-norm least squares for the members LAPACK reports singular)
+    # and get_mvdr_vector_merl (Souden filter of the reference with the best post-filter SNR), spec/Extras.tla
+    xrecs = core.run_driver('extras', tier=chk.tier, seed=chk.seed, args=dict(what='beam'))
+    chk.validate('solve-merl', 'Trace_Extras', 'Trace_Extras.cfg', xrecs, driver='extras', jobs=8, growth=True)
+    sgoods = [r for r in xrecs if r['kind'] == 'solve' and r['exc'] == '' and r['items'] and len(r['items'][0]['x']) >= 2
+              and r['items'][0]['x'][0] != r['items'][0]['x'][1]]
+
+    def corrupt_x(r):
+        x = r['items'][0]['x']
+        x[0], x[1] = x[1], x[0]
+        return r
+    core.binding_demo(chk, 'bind-solve', 'Trace_Extras', 'Trace_Extras.cfg', sgoods[0] if sgoods else None, corrupt_x,
+                      'regular_members_solved', candidates=sgoods[1:])
     chk.assumptions = ['bit-identity is decided on digests of the complex128 result arrays',
                        'GEV / PCA stacked-vs-slice comparison after aligning the unit phase of each vector']
 
